@@ -269,6 +269,35 @@ PROPS["C04"] = {
     "assumptions": ["renameat within one directory is atomic", "a single read(2) on a regular chunk file returns the whole file"],
 }
 
+PROPS["C17"] = {
+    "modules": ["SlogModel.Props.C17"],
+    "components": [("reload", 600, 8000)],
+    "rule": "one case = one script on the real run.ReloadableOrchestrator (reloads triggered by SIGHUP to the harness process, "
+            "succeeding or failing) with recording downstream orchestrators: opens, records, ticks and closes of up to four "
+            "client numbers, with pairs of operations overlapped (the first is held inside its first downstream call while the "
+            "second starts concurrently: every overlap of a reload with NewSink / Accept / Tick / Close of another connection, "
+            "and reuse of a client number after a close); the recorded downstream trace must equal the trace of Reload.run and "
+            "satisfy Reload.checkTrace; distinct by script; all non-trivial",
+    "level_text": "Theorems over every action sequence of Reload.step (any number of connections, client number = socket "
+                  "descriptor handed out only while no open socket has it, registration, records, ticks, closes, successful and "
+                  "failed reloads, every interleaving of the lock-protected sections): C17_no_dead_delivery (no downstream call "
+                  "reaches a sink of a downstream that was shut down; a new sink never replaces one in place), "
+                  "C17_registered_never_crashes (no nil dereference), C17_slots_current, C17_failed_reload_no_effect, "
+                  "C17_reload_takes_over, and legacy_F15 / legacy_F16 (the interleavings of the code before the repairs reach a "
+                  "violation). Tie: trace equality with the real orchestrator under forced overlaps, the trace predicate evaluated "
+                  "in Lean, and six regenerated facts (lock before sink creation in NewSink, every sink method locked, order "
+                  "inside reload, sink closed before the socket in the listener, the list of compatibility checks, load-and-check "
+                  "before the swap).",
+    "level_note": "Trusted: Lean kernel + 3 standard axioms; xsync.RBMutex as a reader/writer lock; the overlaps are forced at "
+                  "the first downstream call of an operation (other preemption points inside the real methods are covered by the "
+                  "facts, not by schedules). PARTIAL: 'no record lost end to end across a reload' (old pipelines save, new ones "
+                  "recover) is the composition with C03 / C01 and is exercised end to end only by the agent harness; the "
+                  "listener-level slot reuse is tied by the close-order fact, not by a socket-level schedule.",
+    "partial": "end-to-end loss-freedom across reload by composition (C03/C01); listener close order tied by a source fact",
+    "assumptions": ["the operating system never hands out a descriptor that is still open",
+                    "one goroutine per connection (operations of one connection are sequential)"],
+}
+
 NOT_APPLICABLE = {k: "check not built yet in this round (planned in DESIGN.md section 6); no claim is made" for k in
                   ["C%02d" % i for i in range(1, 20)]}
 
